@@ -271,3 +271,19 @@ def named_probe(f, args, outs, tol=1e-9):
             NAMED.append({"function": f.name(), "names": ent["in"], "names_now": [f.name_in(i) for i in range(f.n_in())],
                           "args": [np.asarray(a, float).flatten().tolist() for a in args], "by_name": g.tolist(), "by_position": w.tolist()})
             return
+
+
+def named_selfcheck(f, seed=0):
+    """one evaluation of an exported function at generic inputs, by position and by (pinned) name"""
+    if f.n_in() == 0:
+        return
+    rng = np.random.default_rng(1234 + seed)
+    args = [rng.uniform(0.2, 1.2, f.numel_in(i)) for i in range(f.n_in())]
+    try:
+        r = f(*[ca.DM(a.reshape(f.size_in(i), order="F")) for i, a in enumerate(args)])
+    except Exception:       # noqa
+        return
+    if isinstance(r, dict):
+        return
+    r = r if isinstance(r, (list, tuple)) else [r]
+    named_probe(f, args, [np.array(x).flatten(order="F") for x in r])
